@@ -30,7 +30,7 @@ LEVEL_NOTE = ("Trusted: the reference interpreter nslverif/ref/sem.py and the pr
 ASSUMPTIONS = ["RefSem (nslverif/ref/sem.py) is the source semantics as spelled out in the statement",
                "cases outside the stated numeric domain are dropped, not judged",
                "floats compared within 1e-9 relative"]
-BUDGET = {"quick": 260, "thorough": 9000}   # random programs per shard
+BUDGET = {"quick": 900, "thorough": 9000}   # random programs per shard
 SHARD_TIMEOUT = {"quick": 600, "thorough": 5400}
 
 
